@@ -127,7 +127,8 @@ def judge(ctx, case):
         ctx.count('sets containing tag 0000')
     if any(len(v) == 0 for v in items.values()):
         ctx.count('sets with a zero-length value')
-    kind, data = ctx.call(iso.dumps, dict(msg), encoding=enc, iso_config=cfg, budget=600000)
+    handed = dict(msg)
+    kind, data = ctx.call(iso.dumps, handed, encoding=enc, iso_config=cfg, budget=600000)
     ctx.count('dumps calls')
     if kind != 'ok':
         ctx.violation('pack:%s' % ('step_budget' if kind == 'steps' else 'exception:' + type(data).__name__),
@@ -151,6 +152,14 @@ def judge(ctx, case):
         return
     if got_bits != car[:len(want)]:
         ctx.violation('pack:carriers_not_in_ascending_element_order', {'case': case, 'used': got_bits, 'configured': car})
+        return
+    # the same dict object handed to dumps a second time (the same message written to a second file): dumps has left the
+    # packed carriers in it - they are rebuilt from the same set, so the bytes are the same
+    kind, again = ctx.call(iso.dumps, handed, encoding=enc, iso_config=cfg, budget=600000)
+    ctx.count('dicts handed to dumps a second time')
+    if kind != 'ok' or again != data:
+        ctx.violation('pack:second_dumps_of_the_same_dict_differs', {'case': case, 'first_len': len(data),
+                                                                     'second': repr(again)[:120] if kind != 'ok' else len(again)})
         return
     kind, back = ctx.call(iso.loads, data, encoding=enc, iso_config=cfg, budget=600000 + 100 * len(data))
     ctx.count('loads calls')
